@@ -4,7 +4,7 @@
 //! The core idea is that we install a custom panic hook (`init_panic_hook`) that runs when a thread
 //! panics. That hook tries to print information about the failing schedule by calling
 //! `persist_failure`.
-use std::cell::Cell;
+use std::cell::{Cell, RefCell};
 use std::fs::OpenOptions;
 use std::io::{ErrorKind, Write};
 use std::panic;
@@ -15,9 +15,22 @@ use crate::config::{Config, FailurePersistence};
 use crate::runtime::execution::{CurrentSchedule, ExecutionState};
 use crate::scheduler::serialization::serialize_schedule;
 
-// When we last persisted a schedule. Used so that we don't persist the same schedule twice.
+// When we last persisted a schedule during the current execution (`usize::MAX` if we have not). Used so that we
+// don't persist the same schedule twice.
 thread_local! {
-    static SCHEDULE_PERSISTED_AT: Cell<usize> = const { Cell::new(0) };
+    static SCHEDULE_PERSISTED_AT: Cell<usize> = const { Cell::new(usize::MAX) };
+}
+
+// The configuration of the execution currently running on this thread, for use by the panic hook.
+thread_local! {
+    static CURRENT_CONFIG: RefCell<Option<Config>> = const { RefCell::new(None) };
+}
+
+/// Prepare failure reporting for a new execution on this thread: nothing has been persisted for it yet, whatever
+/// earlier executions on this thread did, and its failures are reported according to its own configuration.
+fn begin_execution(config: Config) {
+    SCHEDULE_PERSISTED_AT.set(usize::MAX);
+    CURRENT_CONFIG.with(|current| *current.borrow_mut() = Some(config));
 }
 
 /// Persist (to stderr or to file) a message describing how to replay a failing schedule.
@@ -89,6 +102,8 @@ fn persist_failure_to_file(serialized_schedule: &str, destination: Option<&PathB
 /// See the module documentation for more details on how this method fits into the failure reporting
 /// story.
 pub fn init_panic_hook(config: Config) {
+    begin_execution(config);
+
     static INIT: Once = Once::new();
     INIT.call_once(|| {
         let original_hook = panic::take_hook();
@@ -96,7 +111,12 @@ pub fn init_panic_hook(config: Config) {
             eprintln!("Task failed, serializing schedule");
             let task_name = ExecutionState::failing_task();
             eprintln!("test panicked in task '{task_name}'");
-            persist_failure(&config);
+            // The hook is installed once per process, so it must not capture the configuration of the run that
+            // happened to install it: use the one of the execution running on the panicking thread.
+            let config = CURRENT_CONFIG.try_with(|current| current.borrow().clone()).ok().flatten();
+            if let Some(config) = config {
+                persist_failure(&config);
+            }
             original_hook(panic_info);
         }));
     });
